@@ -79,7 +79,7 @@ pub fn string_ref(vm: &mut Vm) -> Result<VCell, Error> {
     let s = s.borrow();
     match s.chars().nth(idx) {
         Some(c) => Ok(c.into()),
-        None => Err(InvalidStringIndex(idx, s.chars().count() - 1)),
+        None => Err(InvalidStringIndex(idx, s.chars().count().saturating_sub(1))),
     }
 }
 
@@ -87,14 +87,14 @@ fn char_offset(s: &str, idx: usize) -> Result<usize, Error> {
     s.char_indices()
         .nth(idx)
         .map(|it| it.0)
-        .ok_or_else(|| InvalidStringIndex(idx, s.chars().count() - 1))
+        .ok_or_else(|| InvalidStringIndex(idx, s.chars().count().saturating_sub(1)))
 }
 
 fn char_offset_inclusive(s: &str, idx: usize) -> Result<usize, Error> {
     s.char_indices()
         .nth(idx)
         .map(|it| it.0 + it.1.len_utf8())
-        .ok_or_else(|| InvalidStringIndex(idx, s.chars().count() - 1))
+        .ok_or_else(|| InvalidStringIndex(idx, s.chars().count().saturating_sub(1)))
 }
 
 fn char_substring_offset(
@@ -268,7 +268,7 @@ pub fn string_set(vm: &mut Vm) -> Result<VCell, Error> {
     let range = s
         .char_indices()
         .nth(idx)
-        .ok_or_else(|| InvalidStringIndex(idx, s.chars().count() - 1))
+        .ok_or_else(|| InvalidStringIndex(idx, s.chars().count().saturating_sub(1)))
         .map(|it| (it.0, it.0 + it.1.len_utf8()))?;
     s.replace_range(range.0..range.1, &c.to_string());
     Ok(VCell::void())
